@@ -15,7 +15,7 @@
 (* Fixture (documented here, built by the harness from these numbers only):           *)
 (*   S0 = (0,0) (10U,0) (10U,10U) (0,10U); the probe path is S0 with one extra vertex *)
 (*   forming an outward spike: (sg*M, 5U) or (5U, sg*M) with M = m * 10^x, inserted   *)
-(*   on the side it points away from; S1 = S0 + (20U,20U); rectangle (-2U,-2U,5U,5U); *)
+(*   on the side it points away from; S1 = S0 + (20U,20U); rectangle (-2U,-2U,12U,5U); *)
 (*   offset delta U; Minkowski pattern S0; boolean partner operand S0 + (5U,5U).      *)
 (* Every valid call on this fixture has a non-empty result (between 1 and 99 paths)   *)
 (* provided the unit does not vanish under the scaling (b + s >= 0), which AbsOK      *)
